@@ -440,6 +440,20 @@ theorem block_encoder_sees_blocks {α β : Type} (bw bh w : Nat) (hbw : 0 < bw) 
       (chunks bh img).flatMap (fun grp => (groupBlocks bw w (padRows bh grp)).flatMap g) :=
   encBlocks_blockAt hbw hbh g img hu
 
+/-- **the same loops as C10.**  The sizes of the successive writes of the data-flow model are the
+ones of the length model `EncLen.lean`, whose totals are tied to the library by C10: contiguous
+path, row-wise path (both for encoded pixels of `encBpp` bytes and rows of `w` pixels), and the
+number of row-group buffers of `for_each_f32_rgba_rows`. -/
+theorem write_sizes_match_c10 {α β : Type} (encPx : α → List β) (encBpp bufPx w : Nat)
+    (hl : ∀ x, (encPx x).length = encBpp) (hb : 0 < bufPx) (img : List (List α))
+    (hu : ∀ r ∈ img, r.length = w) :
+    (contigWrites encPx bufPx img).map List.length = chunksContig (w * img.length) bufPx encBpp ∧
+    (rowsWrites encPx bufPx img).map List.length = chunksRows w img.length bufPx encBpp ∧
+    (∀ bh, (rowGroupBuffers bh img).length = rowGroups img.length bh) := by
+  refine ⟨?_, ?_, fun bh => rowGroupBuffers_length bh img⟩
+  · rw [contigWrites_lengths encPx hl hb, flatten_length_uniform img hu]
+  · exact rowsWritesAux_lengths encPx hl hb img 0 [] hu (by simp) (by omega)
+
 /-- **not split ⇒ nothing to prove about the encoder**: a view without fragment height has one
 fragment, the image; fragment-wise = whole for ANY function `enc`, local or not. -/
 theorem fragmentwise_eq_whole_unsplit {ρ β : Type} (enc : List ρ → List β)
